@@ -53,7 +53,7 @@ def dispatch(table, path, method, mode='redirect'):
     last_nb = None
     allowed = set()
     path_matched = False
-    for r in table:
+    for idx, r in enumerate(table):
         if not path_matches(r['pattern'], r.get('mode', mode), path):
             continue
         path_matched = True
@@ -63,10 +63,10 @@ def dispatch(table, path, method, mode='redirect'):
         executed.append(r['rid'])
         status, breaking, kind = BEHAVIOURS[r['beh']]
         if breaking:
-            return {'status': status, 'by': r['rid'], 'executed': executed, 'allow': None}
-        last_nb = (status, r['rid'])
+            return {'status': status, 'by': r['rid'], 'by_index': idx, 'executed': executed, 'allow': None}
+        last_nb = (status, r['rid'], idx)
     if last_nb:
-        return {'status': last_nb[0], 'by': last_nb[1], 'executed': executed, 'allow': None}
+        return {'status': last_nb[0], 'by': last_nb[1], 'by_index': last_nb[2], 'executed': executed, 'allow': None}
     if allowed:
         return {'status': 405, 'by': None, 'executed': executed, 'allow': allowed}
     return {'status': 404, 'by': None, 'executed': executed, 'allow': None}
